@@ -161,8 +161,42 @@ type Query struct {
 	NVals  int
 }
 
+// strlenAxioms: a Go string is shorter than 2^40 bytes (and its length is not negative): one ground instance for every
+// strlen(t) over a closed t, the quantified axiom when a length is taken of a term with bound variables
+func strlenAxioms(asserts []*Term) []*Term {
+	seen := map[int64]bool{}
+	var out []*Term
+	needQ := false
+	var walk func(t *Term)
+	walk = func(t *Term) {
+		if seen[t.id] {
+			return
+		}
+		seen[t.id] = true
+		if t.Op == "apply" && t.Name == "strlen" {
+			if t.bound {
+				needQ = true
+			} else {
+				out = append(out, cmp("bvult", t, Const(64, 1<<40)))
+			}
+		}
+		for _, a := range t.Args {
+			walk(a)
+		}
+	}
+	for _, a := range asserts {
+		walk(a)
+	}
+	if needQ {
+		sb := Bound("s_ax", StrS)
+		out = append(out, Forall(sb, cmp("bvult", Apply("strlen", BV(64), sb), Const(64, 1<<40))))
+	}
+	return out
+}
+
 func SMTQuery(asserts []*Term, getvals []*Term) *Query {
 	p := newPrinter()
+	asserts = append(append([]*Term(nil), asserts...), strlenAxioms(asserts)...)
 	var as []string
 	for _, a := range asserts {
 		as = append(as, p.smt(a))
@@ -406,6 +440,18 @@ func solveT(q *Query, all bool, tmo time.Duration) SolveResult {
 	if q.Lambda {
 		order = []string{"z3-new", "z3"}
 	}
+	return solveOrder(q, all, tmo, order)
+}
+
+// solve2 races the two newer back ends only (cheap first attempts)
+func solve2(q *Query, tmo time.Duration) SolveResult {
+	if q.Lambda {
+		return runSolver("z3-new", q, tmo)
+	}
+	return solveOrder(q, false, tmo, []string{"z3-new", "cvc5"})
+}
+
+func solveOrder(q *Query, all bool, tmo time.Duration, order []string) SolveResult {
 	type res struct {
 		r SolveResult
 	}
